@@ -68,7 +68,177 @@ type instr struct {
 	tableFields  map[string]bool
 	pkgNames     map[string]bool
 	core         bool
+	touchOnly    bool // packages other than the clients and core/table.go, core/index.go: only Touch calls
 	inserted     int
+}
+
+// simple reports whether evaluating e twice is harmless: identifiers and selector chains.
+func simple(e ast.Expr) bool {
+	switch x := e.(type) {
+	case *ast.Ident:
+		return x.Name != "_"
+	case *ast.SelectorExpr:
+		return simple(x.X)
+	case *ast.ParenExpr:
+		return simple(x.X)
+	}
+	return false
+}
+
+func rootIdent(e ast.Expr) string {
+	switch x := e.(type) {
+	case *ast.Ident:
+		return x.Name
+	case *ast.SelectorExpr:
+		return rootIdent(x.X)
+	case *ast.ParenExpr:
+		return rootIdent(x.X)
+	}
+	return ""
+}
+
+type touch struct {
+	x     ast.Expr
+	write bool
+}
+
+func exprText(e ast.Expr) string {
+	var b bytes.Buffer
+	printer.Fprint(&b, token.NewFileSet(), e)
+	return b.String()
+}
+
+// touchesOf lists the maps and slices a statement indexes, ranges over or deletes from, as far
+// as they are evaluated unconditionally and named by a side-effect-free expression. Nested
+// blocks, function literals and the right operands of && and || are not visited.
+func touchesOf(s ast.Stmt) []touch {
+	seen := map[string]int{}
+	var out []touch
+	add := func(x ast.Expr, write bool) {
+		if !simple(x) {
+			return
+		}
+		k := exprText(x)
+		if i, ok := seen[k]; ok {
+			if write {
+				out[i].write = true
+			}
+			return
+		}
+		seen[k] = len(out)
+		out = append(out, touch{x, write})
+	}
+	var walk func(n ast.Node, write bool)
+	walk = func(n ast.Node, write bool) {
+		switch e := n.(type) {
+		case nil:
+			return
+		case *ast.FuncLit, *ast.BlockStmt, *ast.CompositeLit:
+			return
+		case *ast.ParenExpr:
+			walk(e.X, write)
+		case *ast.IndexExpr:
+			add(e.X, write)
+			walk(e.X, false)
+			walk(e.Index, false)
+		case *ast.BinaryExpr:
+			walk(e.X, false)
+			if e.Op != token.LAND && e.Op != token.LOR {
+				walk(e.Y, false)
+			}
+		case *ast.UnaryExpr:
+			walk(e.X, write || e.Op == token.AND)
+		case *ast.StarExpr:
+			walk(e.X, false)
+		case *ast.SelectorExpr:
+			walk(e.X, false)
+		case *ast.SliceExpr:
+			walk(e.X, false)
+		case *ast.TypeAssertExpr:
+			walk(e.X, false)
+		case *ast.KeyValueExpr:
+			walk(e.Value, false)
+		case *ast.CallExpr:
+			if id, ok := e.Fun.(*ast.Ident); ok && id.Name == "delete" && len(e.Args) == 2 {
+				add(e.Args[0], true)
+				walk(e.Args[1], false)
+				return
+			}
+			walk(e.Fun, false)
+			for _, a := range e.Args {
+				walk(a, false)
+			}
+		}
+	}
+	defined := map[string]bool{}
+	def := func(st ast.Stmt) {
+		if as, ok := st.(*ast.AssignStmt); ok && as.Tok == token.DEFINE {
+			for _, l := range as.Lhs {
+				if id, ok := l.(*ast.Ident); ok {
+					defined[id.Name] = true
+				}
+			}
+		}
+	}
+	var stmt func(st ast.Stmt)
+	stmt = func(st ast.Stmt) {
+		switch x := st.(type) {
+		case *ast.AssignStmt:
+			for _, l := range x.Lhs {
+				walk(l, true)
+			}
+			for _, r := range x.Rhs {
+				walk(r, false)
+			}
+		case *ast.IncDecStmt:
+			walk(x.X, true)
+		case *ast.ExprStmt:
+			walk(x.X, false)
+		case *ast.ReturnStmt:
+			for _, r := range x.Results {
+				walk(r, false)
+			}
+		case *ast.IfStmt:
+			if x.Init != nil {
+				def(x.Init)
+				stmt(x.Init)
+			}
+			walk(x.Cond, false)
+		case *ast.SwitchStmt:
+			if x.Init != nil {
+				def(x.Init)
+				stmt(x.Init)
+			}
+			if x.Tag != nil {
+				walk(x.Tag, false)
+			}
+		case *ast.ForStmt:
+			// the condition and post statement run many times: only the init is looked at
+			if x.Init != nil {
+				def(x.Init)
+				stmt(x.Init)
+			}
+		case *ast.RangeStmt:
+			add(x.X, false)
+			walk(x.X, false)
+		case *ast.DeferStmt:
+			for _, a := range x.Call.Args {
+				walk(a, false)
+			}
+		}
+	}
+	stmt(s)
+	// an operand whose root variable the statement itself defines does not exist before it
+	var keep []touch
+	for _, t := range out {
+		if as, ok := s.(*ast.AssignStmt); ok && as.Tok == token.DEFINE {
+			def(as)
+		}
+		if !defined[rootIdent(t.x)] {
+			keep = append(keep, t)
+		}
+	}
+	return keep
 }
 
 func (in *instr) where(pos token.Pos) string {
@@ -249,6 +419,21 @@ func (in *instr) block(list []ast.Stmt) []ast.Stmt {
 		case *ast.LabeledStmt:
 			// leave labelled statements alone
 		}
+		if _, labelled := s.(*ast.LabeledStmt); !labelled {
+			for _, t := range touchesOf(s) {
+				if in.pkgNames[rootIdent(t.x)] {
+					if _, isSel := t.x.(*ast.SelectorExpr); !isSel {
+						continue
+					}
+				}
+				out = append(out, call("Touch", t.x, boolLit(t.write), str(in.where(s.Pos()))))
+				in.inserted++
+			}
+		}
+		if in.touchOnly {
+			out = append(out, s)
+			continue
+		}
 		if in.core {
 			out = append(out, call("Point", str(in.where(s.Pos()))))
 			in.inserted++
@@ -410,6 +595,24 @@ func main() {
 		in.processFile(f, out)
 		overlay[f] = out
 		total += in.inserted
+	}
+	// every other non-test file of the library: Touch calls only (maps and slices reached outside
+	// the client structures: item maps, interpreter environments, package-level tables)
+	for _, pkg := range []string{"core", "interpreter", "interpreter/language", "types"} {
+		files, _ := filepath.Glob(filepath.Join(repo, pkg, "*.go"))
+		sort.Strings(files)
+		for _, f := range files {
+			if strings.HasSuffix(f, "_test.go") || overlay[f] != "" {
+				continue
+			}
+			in := &instr{fset: token.NewFileSet(), file: f, touchOnly: true}
+			out := filepath.Join(outdir, strings.ReplaceAll(pkg, "/", "_")+"_"+filepath.Base(f))
+			in.processFile(f, out)
+			if in.inserted > 0 {
+				overlay[f] = out
+			}
+			total += in.inserted
+		}
 	}
 	// the race-detector pass links the uninstrumented packages: its overlay only supplies the shim
 	bm, _ := json.MarshalIndent(map[string]interface{}{"Replace": map[string]string{filepath.Join(repo, "zzverif", "verifsync", "verifsync.go"): shim}}, "", " ")
